@@ -38,9 +38,14 @@ touched = sorted(set(re.findall(r"^\+\+\+ b/([a-z_-]+)/", open(patch).read(), fl
 
 CHECK_ONLY = "--check-only" in sys.argv
 dst0 = os.path.join(ROOT, "seeded", "%s_%s" % (pid, letter), "meta.json")
+SKIP_A = "--skip-a" in sys.argv   # phase B before phase A has run (the confirmation follows later with --no-check)
 if CHECK_ONLY and os.path.exists(dst0):
     meta = json.load(open(dst0))
     tests_ok = meta.get("confirmed", False)
+elif SKIP_A:
+    meta = {"property": pid, "seed": "%s_%s" % (pid, letter), "demo_location": demo_rel, "touched_crates": touched, "readme": readme[:3000],
+            "demo_without_patch": {"passed": None}, "demo_with_patch": {"passed": None}, "existing_tests_with_patch": {"failed": None}}
+    tests_ok = None
 else:
     sh(["git", "-C", "/repo", "worktree", "remove", "--force", wt])
     for _try in range(6):
@@ -120,7 +125,7 @@ finally:
         sh(["git", "-C", "/repo", "clean", "-fdq", "--", "kolibrie/tests", "datalog/tests", "shared/tests"])
 meta["check"] = None if NO_CHECK else {"concrete_failing_input": detected and "no-failing-input-found" not in line, "cmd": "./check %s --tier %s" % (pid, tier), "detected": detected, "line": line, "wall_s": round(time.time() - t0, 1),
                  "replay": {k: (str(v)[:1500]) for k, v in (replay or {}).items()}}
-meta["confirmed"] = bool(meta["demo_without_patch"]["passed"] and not meta["demo_with_patch"]["passed"] and tests_ok)
+meta["confirmed"] = None if tests_ok is None else bool(meta["demo_without_patch"]["passed"] and not meta["demo_with_patch"]["passed"] and tests_ok)
 dst = os.path.join(ROOT, "seeded", "%s_%s" % (pid, letter))
 os.makedirs(dst, exist_ok=True)
 if os.path.abspath(src) != os.path.abspath(dst):
